@@ -186,8 +186,10 @@ struct MbedEndpoint : Endpoint {
 		if (prf == MBEDTLS_SSL_TLS_PRF_NONE) return false;
 		Bytes seed(cr, cr + 32);
 		seed.insert(seed.end(), sr, sr + 32);
-		seed.push_back((uint8_t)(ctxlen >> 8)); seed.push_back((uint8_t)ctxlen);
-		seed.insert(seed.end(), ctxv, ctxv + ctxlen);
+		if (ctxv) {   // RFC 5705: the length prefix is there for a context of length zero, absent without a context
+			seed.push_back((uint8_t)(ctxlen >> 8)); seed.push_back((uint8_t)ctxlen);
+			seed.insert(seed.end(), ctxv, ctxv + ctxlen);
+		}
 		return mbedtls_ssl_tls_prf(prf, ms, 48, label, seed.data(), seed.size(), out, len) == 0;
 	}
 };
